@@ -45,7 +45,7 @@ theorem mem_strictErrors (S : VSchema) (d : Doc) (vars opName) (k : Model.Valida
     k ∈ strictErrors S {} d vars opName ↔
       k ∈ (events S {} d).flatMap (stateless S {} d)
       ∨ k ∈ ruleArgsCorrect S {} vars opName none false (events S {} d)
-      ∨ k ∈ ruleKnownArgs S none (events S {} d)
+      ∨ k ∈ ruleKnownArgs S {} none (events S {} d)
       ∨ k ∈ ruleUniqueArgs [] (events S {} d)
       ∨ k ∈ ruleUniqueVars [] (events S {} d)
       ∨ k ∈ ruleKnownDirs S [] (events S {} d)
@@ -54,7 +54,7 @@ theorem mem_strictErrors (S : VSchema) (d : Doc) (vars opName) (k : Model.Valida
       ∨ k ∈ ruleUndefinedVars d (scopeTable none [] (events S {} d))
       ∨ k ∈ ruleUnusedVars d (scopeTable none [] (events S {} d))
       ∨ k ∈ ruleVarPositions {} d (scopeTable none [] (events S {} d))
-      ∨ k ∈ ruleOverlap d (events S {} d) := by
+      ∨ k ∈ ruleOverlap {} d (events S {} d) := by
   simp only [strictErrors, List.mem_append, or_assoc]
 
 /-- the kinds owned by the rules with state and by the graph rules -/
@@ -74,7 +74,7 @@ theorem strict_stateless (S : VSchema) (d : Doc) (vars opName) (k : Model.Valida
     rcases h with h | h | h | h | h | h | h | h | h | h | h | h
     · exact h
     · have := range_argsCorrect _ _ _ _ _ _ _ h; subst this; exact absurd (by decide) hn
-    · rcases range_knownArgs _ _ _ _ h with rfl | rfl <;> exact absurd (by decide) hn
+    · rcases range_knownArgs _ _ _ _ _ h with rfl | rfl <;> exact absurd (by decide) hn
     · have := range_uniqueArgs _ _ _ h; subst this; exact absurd (by decide) hn
     · have := range_uniqueVars _ _ _ h; subst this; exact absurd (by decide) hn
     · rcases range_knownDirs _ _ _ _ h with rfl | rfl <;> exact absurd (by decide) hn
@@ -83,7 +83,7 @@ theorem strict_stateless (S : VSchema) (d : Doc) (vars opName) (k : Model.Valida
     · rcases range_undefinedVars _ _ _ h with rfl | rfl <;> exact absurd (by decide) hn
     · rcases range_unusedVars _ _ _ h with rfl | rfl <;> exact absurd (by decide) hn
     · have := range_varPositions _ _ _ _ h; subst this; exact absurd (by decide) hn
-    · rcases range_overlap _ _ _ h with rfl | rfl | rfl <;> exact absurd (by decide) hn
+    · rcases range_overlap _ _ _ _ h with rfl | rfl | rfl <;> exact absurd (by decide) hn
   · exact Or.inl
 
 theorem strict_dupVar (S : VSchema) (d : Doc) (vars opName) :
@@ -94,7 +94,7 @@ theorem strict_dupVar (S : VSchema) (d : Doc) (vars opName) :
     rcases h with h | h | h | h | h | h | h | h | h | h | h | h
     · exact absurd (range_stateless _ _ _ h) (by decide)
     · exact absurd (range_argsCorrect _ _ _ _ _ _ _ h) (by decide)
-    · rcases range_knownArgs _ _ _ _ h with h | h <;> exact absurd h (by decide)
+    · rcases range_knownArgs _ _ _ _ _ h with h | h <;> exact absurd h (by decide)
     · exact absurd (range_uniqueArgs _ _ _ h) (by decide)
     · exact h
     · rcases range_knownDirs _ _ _ _ h with h | h <;> exact absurd h (by decide)
@@ -103,7 +103,7 @@ theorem strict_dupVar (S : VSchema) (d : Doc) (vars opName) :
     · rcases range_undefinedVars _ _ _ h with h | h <;> exact absurd h (by decide)
     · rcases range_unusedVars _ _ _ h with h | h <;> exact absurd h (by decide)
     · exact absurd (range_varPositions _ _ _ _ h) (by decide)
-    · rcases range_overlap _ _ _ h with h | h | h <;> exact absurd h (by decide)
+    · rcases range_overlap _ _ _ _ h with h | h | h <;> exact absurd h (by decide)
   · intro h; exact Or.inr (Or.inr (Or.inr (Or.inr (Or.inl h))))
 
 theorem strict_dupArg (S : VSchema) (d : Doc) (vars opName) :
@@ -114,7 +114,7 @@ theorem strict_dupArg (S : VSchema) (d : Doc) (vars opName) :
     rcases h with h | h | h | h | h | h | h | h | h | h | h | h
     · exact absurd (range_stateless _ _ _ h) (by decide)
     · exact absurd (range_argsCorrect _ _ _ _ _ _ _ h) (by decide)
-    · rcases range_knownArgs _ _ _ _ h with h | h <;> exact absurd h (by decide)
+    · rcases range_knownArgs _ _ _ _ _ h with h | h <;> exact absurd h (by decide)
     · exact h
     · exact absurd (range_uniqueVars _ _ _ h) (by decide)
     · rcases range_knownDirs _ _ _ _ h with h | h <;> exact absurd h (by decide)
@@ -123,7 +123,7 @@ theorem strict_dupArg (S : VSchema) (d : Doc) (vars opName) :
     · rcases range_undefinedVars _ _ _ h with h | h <;> exact absurd h (by decide)
     · rcases range_unusedVars _ _ _ h with h | h <;> exact absurd h (by decide)
     · exact absurd (range_varPositions _ _ _ _ h) (by decide)
-    · rcases range_overlap _ _ _ h with h | h | h <;> exact absurd h (by decide)
+    · rcases range_overlap _ _ _ _ h with h | h | h <;> exact absurd h (by decide)
   · intro h; exact Or.inr (Or.inr (Or.inr (Or.inl h)))
 
 theorem strict_knownDirs (S : VSchema) (d : Doc) (vars opName) (k : Model.Validate.Kind)
@@ -135,7 +135,7 @@ theorem strict_knownDirs (S : VSchema) (d : Doc) (vars opName) (k : Model.Valida
     rcases h with h | h | h | h | h | h | h | h | h | h | h | h
     · rcases hk with rfl | rfl <;> exact absurd (range_stateless _ _ _ h) (by decide)
     · rcases hk with rfl | rfl <;> exact absurd (range_argsCorrect _ _ _ _ _ _ _ h) (by decide)
-    · rcases hk with rfl | rfl <;> rcases range_knownArgs _ _ _ _ h with h | h <;> exact absurd h (by decide)
+    · rcases hk with rfl | rfl <;> rcases range_knownArgs _ _ _ _ _ h with h | h <;> exact absurd h (by decide)
     · rcases hk with rfl | rfl <;> exact absurd (range_uniqueArgs _ _ _ h) (by decide)
     · rcases hk with rfl | rfl <;> exact absurd (range_uniqueVars _ _ _ h) (by decide)
     · exact h
@@ -144,7 +144,7 @@ theorem strict_knownDirs (S : VSchema) (d : Doc) (vars opName) (k : Model.Valida
     · rcases hk with rfl | rfl <;> rcases range_undefinedVars _ _ _ h with h | h <;> exact absurd h (by decide)
     · rcases hk with rfl | rfl <;> rcases range_unusedVars _ _ _ h with h | h <;> exact absurd h (by decide)
     · rcases hk with rfl | rfl <;> exact absurd (range_varPositions _ _ _ _ h) (by decide)
-    · rcases hk with rfl | rfl <;> rcases range_overlap _ _ _ h with h | h | h <;> exact absurd h (by decide)
+    · rcases hk with rfl | rfl <;> rcases range_overlap _ _ _ _ h with h | h | h <;> exact absurd h (by decide)
   · intro h; exact Or.inr (Or.inr (Or.inr (Or.inr (Or.inr (Or.inl h)))))
 
 
